@@ -502,6 +502,13 @@ Section BlockSums.
   Proof. intros H. now apply (sumn_delta R rO rI radd rmul rsub ropp Rth). Qed.
 End BlockSums.
 
+Lemma row_index_base tp ref (Href : forall K, K < 4 -> kcount ref K = length (conn tp K)) d K itr k :
+  K <= 4 -> row_index tp d K itr k = base_of ref d K + itr * d K + k.
+Proof.
+  intros HK. unfold row_index, base_of. f_equal. f_equal. apply fold_add_map_ext.
+  intros x Hx. apply in_seq in Hx. rewrite Href by (destruct Hx; lia). reflexivity.
+Qed.
+
 (* ====================================================================== interpolation splits into components *)
 Section InterpSplit.
   Variable R : Type.
@@ -528,12 +535,6 @@ Section InterpSplit.
   (* ElementComposite.gbasis: basis function i is basis function ind of component n in slot n, zero elsewhere *)
   Hypothesis HB : forall i e q, i < bNbfun C ->
     bB C i e q = inj (fst (deduce_bfun ref ls i)) (bB (b (fst (deduce_bfun ref ls i))) (snd (deduce_bfun ref ls i)) e q).
-
-  Lemma row_index_base d K itr k : K <= 4 -> row_index tp d K itr k = base_of ref d K + itr * d K + k.
-  Proof.
-    intros HK. unfold row_index, base_of. f_equal. f_equal. apply fold_add_map_ext.
-    intros x Hx. apply in_seq in Hx. rewrite Href by lia. reflexivity.
-  Qed.
 
   Theorem composite_interp_split (n : nat) (g : VC -> R) (h : V -> R) (w : nat -> R) e q :
     n < length ls -> e < ncells tp ->
@@ -570,8 +571,8 @@ Section InterpSplit.
       rewrite Href in Hi by exact HK.
       destruct (Hconn K itr e HK Hi He) as [He' Hg'].
       pose proof (slot_bound ls n K r Hn Hr) as Hs.
-      rewrite <- (row_index_base (D_of ls) K itr (o_of ls n K + r)) by lia.
-      rewrite <- (row_index_base (lay ls n) K itr r) by lia.
+      rewrite <- (row_index_base tp ref Href (D_of ls) K itr (o_of ls n K + r)) by lia.
+      rewrite <- (row_index_base tp ref Href (lay ls n) K itr r) by lia.
       symmetry. exact (split_compat tp (D_of ls) (lay ls n) (composite_slot ls n) K itr r e HK Hi Hr Hs He' Hg').
     - rewrite (sumn_ext R rO radd _ _ (fun _ => rO)); [apply (sumn_zero R rO rI radd rmul rsub ropp Rth)|].
       intros r Hr.
@@ -660,3 +661,185 @@ Section VectorSplit.
     exact (split_compat tp (fun K' => dim * d K') d (vector_slot dim n) K itr r e HK Hi Hr Hslot He' Hg').
   Qed.
 End VectorSplit.
+
+(* ====================================================================== the whole interpolant as the sum of its components,
+   and block assembly as a corollary of C01 *)
+Lemma dof_value_bound tp (d : nat -> nat) K k g : K < 4 -> k < d K -> g < G tp K -> dof_value tp d K k g < off tp d 4.
+Proof.
+  intros HK Hk Hg. unfold dof_value.
+  assert (E : off tp d 4 = off tp d K + fold_right Nat.add 0 (map (fun K' => d K' * G tp K') (seq K (4 - K)))).
+  { unfold off. replace (seq 0 4) with (seq 0 K ++ seq K (4 - K)) by (rewrite <- seq_app; f_equal; lia).
+    rewrite map_app, fold_right_app.
+    assert (Gm : forall l s, fold_right Nat.add s l = fold_right Nat.add 0 l + s).
+    { induction l as [|a l IHl]; intros s; simpl; [lia|]. rewrite IHl. lia. }
+    rewrite Gm. lia. }
+  rewrite E. destruct (4 - K) as [|k4] eqn:E4; [lia|]. simpl. nia.
+Qed.
+
+Section InterpSum.
+  Variable R : Type.
+  Variables (rO rI : R) (radd rmul rsub : R -> R -> R) (ropp : R -> R).
+  Variable Rth : ring_theory rO rI radd rmul rsub ropp (@eq R).
+  Add Ring RingC19Sum : Rth.
+  Notation Sn := (sumn rO radd).
+  Variables V VC : Type.
+  Variables (vadd : V -> V -> V) (vscale : R -> V -> V) (vaddC : VC -> VC -> VC) (vscaleC : R -> VC -> VC).
+  Variable inj : nat -> V -> VC.
+  Variable tp : topo.
+  Variable ref : layout.
+  Variable ls : list layout.
+  Hypothesis Href : forall K, K < 4 -> kcount ref K = length (conn tp K).
+  Hypothesis Hconn : forall K itr e, K < 4 -> itr < length (conn tp K) -> e < ncells tp ->
+    e < length (nth itr (conn tp K) []) /\ nth e (nth itr (conn tp K) []) 0 < G tp K.
+  Variable C : basis R VC.
+  Variable b : nat -> basis R V.
+  Hypothesis HC : bedofs C = element_dofs_of tp (D_of ls) /\ bNbfun C = base_of ref (D_of ls) 4.
+  Hypothesis Hb : forall n, n < length ls ->
+    bedofs (b n) = element_dofs_of tp (lay ls n) /\ bNbfun (b n) = base_of ref (lay ls n) 4.
+  Hypothesis HB : forall i e q, i < bNbfun C ->
+    bB C i e q = inj (fst (deduce_bfun ref ls i)) (bB (b (fst (deduce_bfun ref ls i))) (snd (deduce_bfun ref ls i)) e q).
+
+  (* g (whole interpolant) = sum over the components n of (g o inj n) (component interpolant of x[split_indices[n]]) *)
+  Theorem composite_interp_sum (g : VC -> R) (w : nat -> R) e q :
+    e < ncells tp ->
+    (forall x y, g (vaddC x y) = radd (g x) (g y)) -> (forall s x, g (vscaleC s x) = rmul s (g x)) ->
+    g (interp R rO VC vaddC vscaleC C w e q)
+    = Sn (length ls) (fun n =>
+        Sn (bNbfun (b n)) (fun ind => rmul (w (nth (nth e (element_dofs (b n) ind) 0) (composite_split tp ls n) 0))
+                                           (g (inj n (bB (b n) ind e q))))).
+  Proof.
+    intros He Hga Hgs. destruct HC as [HCe HCn].
+    rewrite (interp_linear R rO rI radd rmul rsub ropp Rth VC vaddC vscaleC g C w e q Hga Hgs).
+    rewrite HCn, (sumn_layout R rO rI radd rmul rsub ropp Rth).
+    (* right-hand side: expand every component, then bring the component sum inside *)
+    transitivity (Sn (length ls) (fun n => Sn 4 (fun K => Sn (kcount ref K) (fun itr => Sn (lay ls n K) (fun r =>
+       rmul (w (nth (nth e (element_dofs (b n) (base_of ref (lay ls n) K + itr * lay ls n K + r)) 0) (composite_split tp ls n) 0))
+            (g (inj n (bB (b n) (base_of ref (lay ls n) K + itr * lay ls n K + r) e q)))))))).
+    2:{ apply sumn_ext. intros n Hn. destruct (Hb n Hn) as [_ Hbn]. rewrite Hbn.
+        now rewrite (sumn_layout R rO rI radd rmul rsub ropp Rth). }
+    rewrite (sumn_exchange R rO rI radd rmul rsub ropp Rth (length ls) 4).
+    apply sumn_ext. intros K HK.
+    rewrite (sumn_exchange R rO rI radd rmul rsub ropp Rth (length ls) (kcount ref K)).
+    apply sumn_ext. intros itr Hi.
+    rewrite (sumn_slots R rO rI radd rmul rsub ropp Rth ls K).
+    apply sumn_ext. intros n Hn. apply sumn_ext. intros r Hr.
+    destruct (Hb n Hn) as [Hbe _].
+    assert (Hlt : base_of ref (D_of ls) K + itr * D_of ls K + (o_of ls n K + r) < bNbfun C).
+    { rewrite HCn. exact (whole_index_bound ref ls n K itr r Hn HK Hi Hr). }
+    rewrite (HB _ e q Hlt).
+    pose proof (deduce_bfun_spec ref ls n K itr r Hn HK Hi Hr) as Hd. unfold whole_index, comp_index in Hd.
+    rewrite Hd. cbn [fst snd]. f_equal. f_equal.
+    unfold element_dofs. rewrite HCe, Hbe.
+    rewrite Href in Hi by exact HK. destruct (Hconn K itr e HK Hi He) as [He' Hg'].
+    pose proof (slot_bound ls n K r Hn Hr) as Hs.
+    rewrite <- (row_index_base tp ref Href (D_of ls) K itr (o_of ls n K + r)) by lia.
+    rewrite <- (row_index_base tp ref Href (lay ls n) K itr r) by lia.
+    symmetry. exact (split_compat tp (D_of ls) (lay ls n) (composite_slot ls n) K itr r e HK Hi Hr Hs He' Hg').
+  Qed.
+
+  (* a coefficient vector supported on component bn: x[split_indices[bn]] = xb, x[split_indices[n]] = 0 otherwise *)
+  Definition supported_on (x : nat -> R) (bn : nat) (xb : nat -> R) : Prop :=
+    forall n k, n < length ls -> k < off tp (lay ls n) 4 ->
+      x (nth k (composite_split tp ls n) 0) = if Nat.eqb bn n then xb k else rO.
+
+  Lemma interp_supported (g : VC -> R) (x : nat -> R) bn xb e q :
+    bn < length ls -> e < ncells tp -> supported_on x bn xb ->
+    (forall x y, g (vaddC x y) = radd (g x) (g y)) -> (forall s x, g (vscaleC s x) = rmul s (g x)) ->
+    g (interp R rO VC vaddC vscaleC C x e q)
+    = Sn (bNbfun (b bn)) (fun ind => rmul (xb (nth e (element_dofs (b bn) ind) 0)) (g (inj bn (bB (b bn) ind e q)))).
+  Proof.
+    intros Hbn He Hsup Hga Hgs.
+    rewrite (composite_interp_sum g x e q He Hga Hgs).
+    rewrite <- (sumn_select R rO rI radd rmul rsub ropp Rth (length ls) bn
+                  (fun n => Sn (bNbfun (b n)) (fun ind => rmul (xb (nth e (element_dofs (b n) ind) 0)) (g (inj n (bB (b n) ind e q))))) Hbn).
+    apply sumn_ext. intros n Hn. destruct (Hb n Hn) as [Hbe Hbnn].
+    (* every DOF number met is a valid position of the split list *)
+    assert (Hpos : forall ind, ind < bNbfun (b n) -> nth e (element_dofs (b n) ind) 0 < off tp (lay ls n) 4).
+    { intros ind Hind. rewrite Hbnn in Hind.
+      (* ind is the row of some (K, itr, r) *)
+      revert ind Hind.
+      assert (Gsum : forall (P : nat -> Prop),
+                (forall K itr r, K < 4 -> itr < kcount ref K -> r < lay ls n K -> P (base_of ref (lay ls n) K + itr * lay ls n K + r)) ->
+                forall ind, ind < base_of ref (lay ls n) 4 -> P ind).
+      { intros P HP ind Hind.
+        assert (HK4 : forall K, K <= 4 -> ind < base_of ref (lay ls n) K -> P ind).
+        { induction K as [|K IHK]; intros HK Hlt; [unfold base_of in Hlt; simpl in Hlt; lia|].
+          destruct (Nat.lt_ge_cases ind (base_of ref (lay ls n) K)) as [Hl|Hge]; [apply IHK; [lia | exact Hl]|].
+          assert (ES : base_of ref (lay ls n) (S K) = base_of ref (lay ls n) K + kcount ref K * lay ls n K).
+          { unfold base_of. rewrite seq_S, map_app, fold_right_app. simpl.
+            assert (Gm : forall l s, fold_right Nat.add s l = fold_right Nat.add 0 l + s).
+            { induction l as [|a l IHl]; intros s; simpl; [lia|]. rewrite IHl. lia. }
+            rewrite Gm. lia. }
+          rewrite ES in Hlt. set (x0 := ind - base_of ref (lay ls n) K).
+          assert (Hd0 : 0 < lay ls n K) by nia.
+          replace ind with (base_of ref (lay ls n) K + (x0 / lay ls n K) * lay ls n K + x0 mod lay ls n K).
+          - apply HP; [lia | apply Nat.div_lt_upper_bound; [lia | unfold x0; nia] | apply Nat.mod_upper_bound; lia].
+          - pose proof (Nat.div_mod x0 (lay ls n K) ltac:(lia)). unfold x0 in *. nia. }
+        apply (HK4 4); [lia | exact Hind]. }
+      apply Gsum. intros K itr r HK Hi Hr. unfold element_dofs. rewrite Hbe.
+      rewrite Href in Hi by exact HK. destruct (Hconn K itr e HK Hi He) as [He' Hg'].
+      rewrite <- (row_index_base tp ref Href (lay ls n) K itr r) by lia.
+      rewrite (element_dofs_entry tp (lay ls n) K itr r e HK Hi Hr He').
+      now apply dof_value_bound. }
+    destruct (Nat.eqb_spec bn n) as [<-|Hne].
+    - apply sumn_ext. intros ind Hind. rewrite (Hsup bn _ Hbn (Hpos ind Hind)). now rewrite Nat.eqb_refl.
+    - rewrite (sumn_ext R rO radd _ _ (fun _ => rO)); [apply (sumn_zero R rO rI radd rmul rsub ropp Rth)|].
+      intros ind Hind. rewrite (Hsup n _ Hn (Hpos ind Hind)).
+      destruct (Nat.eqb_spec bn n); [contradiction | ring].
+  Qed.
+
+  (* ---------- block assembly: the matrix of a coupling form on the composite basis, tested with coefficient vectors
+     supported on the test component a and the trial component bt, is the matrix of the form with the other components
+     zeroed, assembled on the component bases (C01 + decoding + split_indices) ---------- *)
+  Variable W : Type.
+  Variable form : VC -> VC -> W -> R.
+  Hypothesis form_add_u : forall x y v w, form (vaddC x y) v w = radd (form x v w) (form y v w).
+  Hypothesis form_scale_u : forall s x v w, form (vscaleC s x) v w = rmul s (form x v w).
+  Hypothesis form_add_v : forall u x y w, form u (vaddC x y) w = radd (form u x w) (form u y w).
+  Hypothesis form_scale_v : forall s u x w, form u (vscaleC s x) w = rmul s (form u x w).
+  Hypothesis inj_add : forall n x y, inj n (vadd x y) = vaddC (inj n x) (inj n y).
+  Hypothesis inj_scale : forall n s x, inj n (vscale s x) = vscaleC s (inj n x).
+
+  Theorem block_assembly (a bt : nat) (w : nat -> nat -> W) (uC vC ub va : nat -> R) :
+    a < length ls -> bt < length ls ->
+    wf_basis C -> wf_basis (b a) -> wf_basis (b bt) ->
+    bnelems C = ncells tp -> bnelems (b a) = ncells tp -> bnelems (b bt) = ncells tp ->
+    bnq (b a) = bnq C -> bnq (b bt) = bnq C ->
+    (forall e q, e < ncells tp -> q < bnq C -> bdx (b bt) e q = bdx C e q) ->
+    supported_on uC bt ub -> supported_on vC a va ->
+    exists cC AC cab Aab,
+      bilinear_assemble R rO radd rmul VC W form w C None = Some cC /\ to_dense2 R rO radd cC = Some AC /\
+      bilinear_assemble R rO radd rmul V W (fun x y w => form (inj bt x) (inj a y) w) w (b bt) (Some (b a)) = Some cab /\
+      to_dense2 R rO radd cab = Some Aab /\
+      vAu R rO radd rmul vC AC uC (bN C) (bN C) = vAu R rO radd rmul va Aab ub (bN (b a)) (bN (b bt)).
+  Proof.
+    intros Ha Hbt WC Wa Wbt NC Na Nbt Qa Qbt Hdx Hsu Hsv.
+    destruct (bilinear_weak_form R rO rI radd rmul rsub ropp Rth VC W vaddC vscaleC form
+                form_add_u form_scale_u form_add_v form_scale_v w C None uC vC WC WC eq_refl eq_refl) as [cC [AC [EC [EAC HAC]]]].
+    destruct (bilinear_weak_form R rO rI radd rmul rsub ropp Rth V W vadd vscale (fun x y w0 => form (inj bt x) (inj a y) w0)
+                (fun x y v w0 => eq_trans (f_equal (fun z => form z (inj a v) w0) (inj_add bt x y)) (form_add_u _ _ _ _))
+                (fun s x v w0 => eq_trans (f_equal (fun z => form z (inj a v) w0) (inj_scale bt s x)) (form_scale_u _ _ _ _))
+                (fun u x y w0 => eq_trans (f_equal (fun z => form (inj bt u) z w0) (inj_add a x y)) (form_add_v _ _ _ _))
+                (fun s u x w0 => eq_trans (f_equal (fun z => form (inj bt u) z w0) (inj_scale a s x)) (form_scale_v _ _ _ _))
+                w (b bt) (Some (b a)) ub va Wbt Wa (eq_trans Na (eq_sym Nbt)) (eq_trans Qa (eq_sym Qbt))) as [cab [Aab [Eab [EAab HAab]]]].
+    exists cC, AC, cab, Aab. repeat (split; [assumption|]).
+    cbv zeta in HAC, HAab. rewrite HAC, HAab. rewrite NC, Nbt, Qbt.
+    unfold integrate. apply sumn_ext. intros e He. apply sumn_ext. intros q Hq.
+    rewrite (Hdx e q He Hq). f_equal.
+    (* first argument *)
+    rewrite (interp_supported (fun X => form X (interp R rO VC vaddC vscaleC C vC e q) (w e q)) uC bt ub e q Hbt He Hsu)
+      by (intros; first [apply form_add_u | apply form_scale_u]).
+    rewrite <- (interp_linear R rO rI radd rmul rsub ropp Rth V vadd vscale
+                  (fun x => form (inj bt x) (interp R rO VC vaddC vscaleC C vC e q) (w e q)) (b bt) ub e q).
+    2:{ intros x y. rewrite inj_add. apply form_add_u. }
+    2:{ intros s x. rewrite inj_scale. apply form_scale_u. }
+    (* second argument *)
+    rewrite (interp_supported (fun Y => form (inj bt (interp R rO V vadd vscale (b bt) ub e q)) Y (w e q)) vC a va e q Ha He Hsv)
+      by (intros; first [apply form_add_v | apply form_scale_v]).
+    rewrite <- (interp_linear R rO rI radd rmul rsub ropp Rth V vadd vscale
+                  (fun y => form (inj bt (interp R rO V vadd vscale (b bt) ub e q)) (inj a y) (w e q)) (b a) va e q).
+    2:{ intros x y. rewrite inj_add. apply form_add_v. }
+    2:{ intros s x. rewrite inj_scale. apply form_scale_v. }
+    reflexivity.
+  Qed.
+End InterpSum.
